@@ -105,3 +105,21 @@ package staking
 //@   ensures stakingState.GSupply == old(stakingState.GSupply) && stakingState.GGovDep == old(stakingState.GGovDep)
 //@   ensures err == nil ==> stakingState.SharesConsistentWithOld()
 //@   note the block's fees (held by the fee accumulator, outside the ledger) enter the ledger exactly once: proposer share + common pool remainder + persisted share for the next block's voters
+
+// ---- epoch transition (EndBlock on epoch change) ----
+
+//@ func Application.rewardEpochSigning
+//@   props C05
+//@   requires app != nil && ctx != nil
+//@   requires stakingState.GCommon >= 0
+//@   ensures err == nil ==> stakingState.Ledger() == old(stakingState.Ledger()) && stakingState.GSupply == old(stakingState.GSupply)
+//@   ensures err == nil ==> stakingState.SharesConsistentWithOld()
+
+//@ func Application.onEpochChange
+//@   props C05 C15
+//@   requires app != nil && ctx != nil
+//@   requires stakingState.GCommon >= 0
+//@   ensures err == nil ==> stakingState.Ledger() == old(stakingState.Ledger()) && stakingState.GSupply == old(stakingState.GSupply)
+//@   loop 1 invariant stakingState.Ledger() == old(stakingState.Ledger()) && stakingState.GSupply == old(stakingState.GSupply) && stakingState.GCommon == old(stakingState.GCommon)
+//@   loop 1 invariant forall j int :: 0 <= j && j < len(expiredDebondingQueue) ==> expiredDebondingQueue[j] != nil && expiredDebondingQueue[j].Delegation != nil && quantity.Val(&expiredDebondingQueue[j].Delegation.Shares) >= 0
+//@   note debonded stake moves from the escrow account's debonding pool to the delegator's general balance (same account handled once), then the epoch's signing rewards are paid from the common pool: the ledger and the recorded supply are unchanged
